@@ -218,12 +218,13 @@ func SelectAddrFromSubnet(seed []byte, net1 *net.IPNet) (net.IP, error) {
 		return nil, fmt.Errorf("failed to create seed ")
 	}
 
-	// nolint:staticcheck // here for backwards compatibility with clients
-	mrand.Seed(seedInt)
+	// A private source seeded with the client's value reads exactly the bytes the global source
+	// would return after mrand.Seed(seedInt) (needed for backwards compatibility with clients),
+	// without depending on - or disturbing - other users of math/rand in the process.
+	seededRand := mrand.New(mrand.NewSource(seedInt))
 	randBytes := make([]byte, addrLen/8)
 
-	// nolint:staticcheck // here for backwards compatibility with clients
-	_, err := mrand.Read(randBytes)
+	_, err := seededRand.Read(randBytes)
 	if err != nil {
 		return nil, err
 	}
